@@ -15,7 +15,9 @@ RULE = ('corpus; ranked profiles as in C03 (2..6 candidates, truncation, shared 
         'distinct winners when n candidates stand and the count is not refused; majority first choice wins one seat; every solid '
         'coalition (all non-empty candidate subsets, every k) holding k quotas gets min(k,|S|) seats (ballots without shared ranks). '
         'non-trivial = more than one count; distinct by case hash')
-PARTIAL = ['PSC and majority clauses: decided per case by a brute-force checker over all candidate subsets (not yet a theorem)',
+PARTIAL = ['PSC: theorem for all inputs of the Gregory model (C04_psc, Proofs/STV_psc_proofs.v); additionally decided per case on '
+           'every implementation outcome by a brute-force checker over all candidate subsets',
+           'majority clause: theorem from the first count on; first-preference link decided per case',
            'Hare transfers: implementation-side checks only']
 TRUSTED = []
 
